@@ -1,11 +1,37 @@
 # -*- coding: utf-8 -*-
 """C02 Step execution: order, outcome-to-status mapping, stop after first non-pass."""
-from .. import rules_step
+from ..report import run_parallel
+from . import common as T
+from .. import rules_order
 
-EXPLANATION = ("static analysis: abstract exploration of Step.run over finite domains; ")
-NOT_DECIDED = ""
+EXPLANATION = (
+    "Static analysis. S1/S2: Step.run explored for every step-function outcome class (returns, skips its scenario, "
+    "AssertionError, pending-step errors, KeyboardInterrupt, other Exceptions incl. NotImplementedError and parse "
+    "errors, non-Exception BaseExceptions) x before/after hook outcomes x @wip (own / inherited / none / no scenario) "
+    "x dry-run x quiet x capture, starting from an ARBITRARY prior step state: final status and return value must equal "
+    "the outcome table written from the property (handler matching uses the resolved class hierarchy, so a reordered "
+    "or widened except ladder changes the table). S3: Scenario.run explored over step sequences of every length with "
+    "the Step.run summary: after the first non-passing step (or a step that skipped the scenario) no step.run event "
+    "occurs, every other step is assigned skipped/undefined/untested, nothing runs in dry-run or when not selected. "
+    "S4/S5: provenance rules on the iterables: the run loop walks background-derived steps before own steps, "
+    "Background.iter_steps puts inherited steps first, scenarios get per-scenario copies of background steps, and "
+    "outline rows never share Step objects with the template. " + T.SOUNDNESS)
+NOT_DECIDED = ("that parse/re find the right step definition (C11); real timing; the semantics under "
+               "continue_after_failed_step=True beyond verdict/bracket consistency; async step glue is decided "
+               "structurally only (S6)")
+ASSUMPTIONS = ["Step.run summary used inside Scenario.run is the one proved by S1/V1/F1"]
+
+
+def t_order(chk, ix):
+    rules_order.check_step_order(chk, ix)
+    rules_order.check_match_protection(chk, ix)
 
 
 def run(chk, ix, tier):
-    rules_step.check_step_run(chk, ix, {"S1"})
+    run_parallel(chk, [
+        (T.t_step, (("S1",),)),
+        (T.t_scenario, (("S3",),)),
+        (t_order, ()),
+    ])
     chk.require_instances("S1", 8)
+    chk.require_instances("S3", 1)
